@@ -3,16 +3,9 @@
     f32, scaled by a power of two where stated); an implementation distance arrives as its
     binary32 BIT PATTERN and is compared with the model's exact integer through Vec/F32.v. *)
 From Coq Require Import ZArith List Bool.
-From GV Require Export Vec.Hnsw Vec.Brute Vec.Kernel Vec.F32 Vec.Quant.
+From GV Require Export Vec.Hnsw Vec.Brute Vec.Kernel Vec.F32 Vec.Quant Vec.Inst.
 Import ListNotations.
 Open Scope Z_scope.
-
-Definition zvec := list Z.
-Definition ztop : Z := 2 ^ 300.   (* f32::MAX of node_distance: larger than every real distance *)
-(** the model instance that runs: exact distances in Z, alpha = 1.0, std's BinaryHeap *)
-Definition zext (mt : metric) : ext zvec Z := std_ext (zdist mt) ztop Z.leb Z.ltb (fun d => d).
-(** the same with the list heaps (equal results whenever no two distances tie) *)
-Definition zext_list (mt : metric) : ext zvec Z := list_ext (zdist mt) ztop Z.leb Z.ltb (fun d => d).
 
 Fixpoint list_eqb {A} (e : A -> A -> bool) (a b : list A) : bool :=
   match a, b with
@@ -115,13 +108,13 @@ Definition hstep (mt : metric) (c : config) (ss : list (state zvec)) (o : hop) :
         (flat_map (fun s =>
            if Bool.eqb (has (nodes s) id) ret then
              match pick with
-             | Some p => [fst (remove s id p)]
+             | Some p => [fst (hnsw_remove s id p)]
              | None => if removes_entry s id
                        then match filter (fun x => negb (x =? id)) (keys (nodes s)) with
-                            | [] => [fst (remove s id None)]
-                            | ks => map (fun p => fst (remove s id (Some p))) ks
+                            | [] => [fst (hnsw_remove s id None)]
+                            | ks => map (fun p => fst (hnsw_remove s id (Some p))) ks
                             end
-                       else [fst (remove s id None)]
+                       else [fst (hnsw_remove s id None)]
              end
            else []) ss)
   | HSearch q k ef impl => filter (fun s => res_ok mt (xsearch (zext mt) s q k ef) impl) ss
@@ -148,18 +141,43 @@ Fixpoint reach_fuel (f : nat) (m : nodemap zvec) (todo seen : list Z) : list Z :
   | O => seen
   | S f' => match todo with
             | [] => seen
-            | x :: t => let new := filter (fun y => negb (memz y seen) && negb (memz y t)) (nbrs m x 0) in
-                        reach_fuel f' m (t ++ new) (seen ++ filter (fun y => negb (memz y seen)) (x :: nil))
+            | x :: t => let seen' := if memz x seen then seen else seen ++ [x] in
+                        let new := filter (fun y => negb (memz y seen') && negb (memz y t)) (nbrs m x 0) in
+                        reach_fuel f' m (t ++ new) seen'
             end
   end.
-Definition reachable0 (s : state zvec) : Z :=
+Definition reachable_from (s : state zvec) (a : Z) : Z :=
+  zlen (reach_fuel (fuel_of (nodes s)) (nodes s) [a] []).
+(** the node the layer-0 beam search of [search_with_ef] starts from *)
+Definition start0 (mt : metric) (s : state zvec) (q : zvec) : option Z :=
   match entry s with
-  | None => 0
-  | Some e => zlen (reach_fuel (fuel_of (nodes s)) (nodes s) [e] [])
+  | Some ep => Some (descend zvec Z (zdist mt) ztop Z.ltb (nodes s) q (max_level s) 0 ep)
+  | None => None
   end.
-(** does the model state (single candidate) after the history reach every node on layer 0? *)
-Definition all_reachable (mt : metric) (c : config) (ops : list hop) : bool :=
-  forallb (fun s => reachable0 s =? zlen (nodes s)) (snd (hrun mt c [empty] ops 0)).
+Definition unreachable_state (mt : metric) (q : zvec) (s : state zvec) : bool :=
+  match start0 mt s q with
+  | Some a => reachable_from s a <? zlen (nodes s)
+  | None => false
+  end.
+(** finding class C18-K1: the history (whose last operation is the short search, reproduced by
+    the model) leaves a live node that layer-0 links do not reach from the search's start *)
+Definition k_unreachable (mt : metric) (c : config) (ops : list hop) : bool :=
+  match last ops (HLen 0) with
+  | HSearch q _ _ _ =>
+      match hrun mt c [empty] ops 0 with
+      | (n, ss) => (n =? zlen ops) && existsb (unreachable_state mt q) ss
+      end
+  | _ => false
+  end.
+
+(** ---- the std BinaryHeap premise: the transcription against the real heap ---- *)
+Definition chk_bheap (ops : list (option (Z * Z))) (final : list (Z * Z)) : bool :=
+  let ole (a b : Z * Z) := snd a <=? snd b in
+  let h := fold_left (fun h o => match o with
+                                 | Some x => bpush ole x h
+                                 | None => match bpop ole h with Some (_, h') => h' | None => h end
+                                 end) ops [] in
+  list_eqb (fun a b => (fst a =? fst b) && (snd a =? snd b)) h final.
 
 (** ---- scalar quantiser ---- *)
 (** ScalarQuantizer::with_ranges(min, max) on an exact grid: range = 255 * 2^e per dimension, so
